@@ -1007,6 +1007,8 @@ c_status_t UMFindData(const UMessage * msg, const char * fieldName, uint32 dataT
    }
    if (pointerToBlob >= afterEndOfField) return CB_ERROR;
 
+   if (UMReadInt32(pointerToBlob-sizeof(uint32)) > (uint32)(afterEndOfField-pointerToBlob)) return CB_ERROR;  /* eg if the field doesn't actually hold variable-sized items */
+
    *retDataBytes = pointerToBlob;
    *retNumBytes  = UMReadInt32(pointerToBlob-sizeof(uint32));
    return CB_NO_ERROR;
